@@ -205,13 +205,15 @@ def trace_plumbing(chk, prog, c):
                 if t and t["k"] == "call" and not t["f"].get("indirect"):
                     out.append(norm(t["f"]["def"]))
         return out
+    ti = prog.collector_trace_impl() or {"trace_gc": "<context::Context as collect::Trace>::trace_gc",
+                                        "trace_gc_weak": "<context::Context as collect::Trace>::trace_gc_weak"}
     for fn, want, forbid in (
             ("<gc::Gc as collect::Collect>::trace", "collect::Trace::trace_gc", "collect::Trace::trace_gc_weak"),
             ("<gc_weak::GcWeak as collect::Collect>::trace", "collect::Trace::trace_gc_weak", "collect::Trace::trace_gc"),
             ("<<T as collect::DynCollect>::dyn_trace::TraceWrap as collect::Trace>::trace_gc", "collect::Trace::trace_gc", "collect::Trace::trace_gc_weak"),
             ("<<T as collect::DynCollect>::dyn_trace::TraceWrap as collect::Trace>::trace_gc_weak", "collect::Trace::trace_gc_weak", "collect::Trace::trace_gc"),
-            ("<context::Context as collect::Trace>::trace_gc", "context::Context::trace", "context::Context::trace_weak"),
-            ("<context::Context as collect::Trace>::trace_gc_weak", "context::Context::trace_weak", "context::Context::trace"),
+            (ti["trace_gc"], "context::Context::trace", "context::Context::trace_weak"),
+            (ti["trace_gc_weak"], "context::Context::trace_weak", "context::Context::trace"),
             ("<(dyn collect::DynCollect + 'static) as collect::Collect>::trace", "collect::DynCollect::dyn_trace", None),
             ("<T as collect::DynCollect>::dyn_trace", "collect::Collect::trace", None)):
         if not chk.anchor(fn, fn in prog.seed_n, "(config %s)" % c):
